@@ -57,6 +57,13 @@ func runEvalPlans(w *Writer, r *Rng, t Tier, plans []evalPlan) error {
 			cfg.MaxNodes *= 2
 			cfg.MaxDepth++
 		}
+		if di%8 == 5 {
+			// a deep, narrow document: string-values and ancestor walks over 9 … 18 levels
+			cfg.Spine = 9 + dr.Intn(10)
+			cfg.MaxDepth = cfg.Spine + 2
+			cfg.MaxKids = 2
+			cfg.MaxNodes += 2 * cfg.Spine
+		}
 		doc, err := w.NewDoc(fmt.Sprintf("d%d", di), GenEvents(dr, cfg))
 		if err != nil {
 			return err
@@ -134,12 +141,58 @@ func GenProperty(w *Writer, prop string, t Tier, seed uint64) error {
 				}
 				return Call{Base: Ctx{}, Name: "count", Args: []Expr{inner}}, g.Start
 			}},
+			{fam: "root-alone", doc: docDefault, gen: func(g *ExprGen, d *Doc, r *Rng) (Expr, int) {
+				// the path `/` ALONE (its own production and handler), from start nodes of every kind, before
+				// and after other absolute paths have been evaluated in the same query
+				rel := Step{Base: Ctx{}, Axis: Pick(r, []string{"self", "parent", "ancestor-or-self", "child"}), Test: Test{Kind: "node"}}
+				cnt := func(e Expr) Expr { return Call{Base: Ctx{}, Name: "count", Args: []Expr{e}} }
+				switch r.Intn(7) {
+				case 0:
+					return Root{}, g.Start
+				case 1:
+					return Bin{Op: "union", L: Root{}, R: rel}, g.Start
+				case 2:
+					return Bin{Op: "union", L: rel, R: Root{}}, g.Start
+				case 3:
+					return cnt(Bin{Op: "union", L: Root{}, R: rel}), g.Start
+				case 4:
+					st := Step{Base: Ctx{}, Axis: Pick(r, []string{"child", "self", "attribute", "descendant"}), Test: Test{Kind: "node"},
+						Preds: []Expr{Bin{Op: Pick(r, []string{"eq", "ge"}), L: cnt(Bin{Op: "union", L: Root{}, R: rel}), R: NumLit{Text: Pick(r, []string{"1", "2", "3"})}}}}
+					return st, g.Start
+				case 5:
+					return Call{Base: Ctx{}, Name: Pick(r, []string{"name", "string", "count", "boolean"}), Args: []Expr{Root{}}}, g.Start
+				}
+				return Bin{Op: "union", L: Step{Base: Root{}, Axis: "child", Test: Test{Kind: "node"}}, R: Root{}}, g.Start
+			}},
 		})
 	case "C02":
 		if err := GenPredGrid(w, t.Thorough); err != nil {
 			return err
 		}
 		return runEvalPlans(w, r, t, []evalPlan{
+			{fam: "filter-var", doc: docDefault, gen: func(g *ExprGen, d *Doc, r *Rng) (Expr, int) {
+				// a predicate applied DIRECTLY to a variable: the node-set the caller bound is not in document
+				// order ($u), the predicate numbers it in document order all the same
+				pos := func() Expr {
+					switch r.Intn(4) {
+					case 0:
+						return NumLit{Text: Pick(r, []string{"1", "2", "3"})}
+					case 1:
+						return Call{Base: Ctx{}, Name: "last"}
+					case 2:
+						return Bin{Op: Pick(r, []string{"eq", "lt", "ge"}), L: Call{Base: Ctx{}, Name: "position"}, R: NumLit{Text: Pick(r, []string{"1", "2"})}}
+					}
+					return Bin{Op: "eq", L: Call{Base: Ctx{}, Name: "position"}, R: Bin{Op: "sub", L: Call{Base: Ctx{}, Name: "last"}, R: NumLit{Text: "1"}}}
+				}
+				var e Expr = Filt{Base: Var{Name: "u"}, Pred: pos()}
+				switch r.Intn(4) {
+				case 0:
+					e = Filt{Base: Filt{Base: Var{Name: "u"}, Pred: Step{Base: Ctx{}, Axis: Pick(r, []string{"child", "attribute", "self"}), Test: Test{Kind: Pick(r, []string{"any", "node"})}}}, Pred: pos()}
+				case 1:
+					e = Step{Base: e, Axis: Pick(r, []string{"following-sibling", "child", "parent", "self"}), Test: Test{Kind: "node"}, Preds: []Expr{NumLit{Text: "1"}}}
+				}
+				return e, g.Start
+			}},
 			{fam: "pred", doc: docDefault, gen: func(g *ExprGen, d *Doc, r *Rng) (Expr, int) {
 				g.Cfg.Preds = 9
 				start := 0
@@ -300,6 +353,9 @@ func GenProperty(w *Writer, prop string, t Tier, seed uint64) error {
 		if err := GenCompareGrid(w); err != nil {
 			return err
 		}
+		if err := GenBoundaryCompareGrid(w); err != nil {
+			return err
+		}
 		return runEvalPlans(w, r, t, []evalPlan{
 			{axes: SimpleAxes, fam: "cmp", doc: numericDoc, gen: func(g *ExprGen, d *Doc, r *Rng) (Expr, int) {
 				g.Cfg.Texts = DefaultTexts
@@ -334,6 +390,46 @@ func GenProperty(w *Writer, prop string, t Tier, seed uint64) error {
 				}
 				return Bin{Op: op, L: l, R: rr}, 0
 			}},
+			{axes: SimpleAxes, fam: "cmp-pred-abs", doc: numericDoc, gen: func(g *ExprGen, d *Doc, r *Rng) (Expr, int) {
+				// a comparison evaluated once per candidate whose operand STARTS with an absolute path and
+				// goes on with something relative to the candidate: /a/b + c = d, (/a | c) = d
+				abs := Step{Base: Root{}, Axis: Pick(r, []string{"child", "descendant"}), Test: Test{Kind: Pick(r, []string{"any", "node", "text"})}}
+				var absE Expr = abs
+				if r.Chance(1, 3) {
+					absE = Step{Base: Step{Base: Root{}, Axis: "descendant-or-self", Test: Test{Kind: "node"}}, Axis: "child", Test: Test{Kind: "text"}}
+				}
+				rel := func() Expr {
+					switch r.Intn(4) {
+					case 0:
+						return Call{Base: Ctx{}, Name: "position"}
+					case 1:
+						return Step{Base: Ctx{}, Axis: "attribute", Test: Test{Kind: "any"}}
+					case 2:
+						return Call{Base: Ctx{}, Name: "count", Args: []Expr{Step{Base: Ctx{}, Axis: Pick(r, []string{"child", "preceding-sibling", "ancestor"}), Test: Test{Kind: "node"}}}}
+					}
+					return Step{Base: Ctx{}, Axis: Pick(r, []string{"child", "self", "following-sibling"}), Test: Test{Kind: Pick(r, []string{"any", "node", "text"})}}
+				}
+				op := Pick(r, []string{"add", "sub", "mul", "union", "add"})
+				var l Expr
+				if op == "union" {
+					l = Bin{Op: "union", L: absE, R: Step{Base: Ctx{}, Axis: Pick(r, []string{"child", "self", "attribute"}), Test: Test{Kind: Pick(r, []string{"any", "node"})}}}
+				} else {
+					l = Bin{Op: op, L: Call{Base: Ctx{}, Name: "count", Args: []Expr{absE}}, R: rel()}
+					if r.Chance(1, 2) {
+						l = Bin{Op: op, L: absE, R: rel()}
+					}
+				}
+				var rr Expr = NumLit{Text: Pick(r, []string{"1", "2", "3", "4", "10"})}
+				if r.Chance(1, 2) {
+					rr = rel()
+				}
+				cmp := Bin{Op: Pick(r, []string{"eq", "ne", "lt", "le", "gt", "ge"}), L: l, R: rr}
+				if r.Chance(1, 3) {
+					cmp.L, cmp.R = cmp.R, cmp.L
+				}
+				base := Step{Base: Step{Base: Root{}, Axis: "descendant-or-self", Test: Test{Kind: "node"}}, Axis: Pick(r, []string{"child", "child", "attribute"}), Test: Test{Kind: Pick(r, []string{"any", "node"})}, Preds: []Expr{cmp}}
+				return base, 0
+			}},
 			{axes: SimpleAxes, fam: "cmp-var", doc: numericDoc, gen: func(g *ExprGen, d *Doc, r *Rng) (Expr, int) {
 				op := Pick(r, []string{"eq", "ne", "lt", "le", "gt", "ge"})
 				vs := []string{"n", "m", "s", "b", "v", "e", "k", "t", "u"}
@@ -365,6 +461,9 @@ func GenProperty(w *Writer, prop string, t Tier, seed uint64) error {
 		})
 	case "C07":
 		if err := GenSubstringGrid(w); err != nil {
+			return err
+		}
+		if err := GenStringSearchGrid(w); err != nil {
 			return err
 		}
 		return runEvalPlans(w, r, t, []evalPlan{
